@@ -129,6 +129,29 @@ def run(chk):
             if nviol <= 5:
                 chk.violation({"kind": "law", "law": law, "expr": expr, "doc": d, "impl": got.decode("utf-8", "replace"),
                                "expect": want.decode("utf-8", "replace")}, True, "update law %s fails for %s" % (law, expr))
+    # ---- the lens spec itself against the implementation (simple paths incl. indices and creation)
+    spec_cases, spec_impl_req = [], []
+    for d, p, v1, v2 in laws:
+        np_ = norm_path(d, p)
+        if np_ is None or v1[0] != "lit":
+            continue
+        steps = "[" + ";".join(("SKey %s" % vlib.coq_str(s)) if isinstance(s, str) else ("SIdx %d" % s) for s in np_) + "]"
+        spec_cases.append(("(%s, %s, %s)" % (steps, evalgen.coq_node(v1[1]), evalgen.coq_node(d)), None))
+        spec_impl_req.append((("assign", path_expr(np_), v1), d))
+    spec_impl = evalcheck.impl_eval(spec_impl_req)
+    sc = [(t, b) for (t, _), b in zip(spec_cases, spec_impl)]
+    smm, serr = vlib.coq_mismatches(chk.workdir, "c02_spec", "From YQ Require Import Base.Str Model.Node Model.Store Spec.Lens.",
+                                    "(fun c => put_run (fst (fst c)) (snd (fst c)) (snd c))", sc, shard=250)
+    if serr:
+        broken.append("spec evaluation failed: " + serr[-400:])
+    else:
+        bad = [(i, mo) for i, mo in smm if mo != b"NA"]
+        for i, mo in bad[:3]:
+            e, d = spec_impl_req[i]
+            chk.violation({"kind": "eval", "expr": evalgen.render(e), "doc": d, "impl": spec_impl[i].decode("utf-8", "replace"),
+                           "expect": mo.decode("utf-8", "replace") if isinstance(mo, bytes) else repr(mo)}, True,
+                          "assignment differs from the lens put (Spec/Lens.v) on " + evalgen.render(e))
+    chk.extra["spec_put_cases"] = len(sc)
     chk.extra["distribution"] = {"update_cases": len(cases), "impl_outcomes": evalcheck.outcome_stats(impl), "outside_model_fragment(UNSUP)": unsup,
                                  "law_instances": len(laws)}
     if mm and not chk.violations:
